@@ -123,6 +123,14 @@ FALSE_LIKE = ["false", "0", "no", "off", "f", "FALSE", " off ", "F", "False", "N
 GARBAGE = ["maybe", "2", "yess", "tru e", "nope", "enable", "y", "oui", "-1", "true,false"]
 
 
+# entries that are substrings of no file name as they stand (items are matched as written: no path cleaning, no globbing)
+NOMATCH = ["nomatch", "zzge/", "./", "vendor/..", "zzgen/../zzge", "zzgen//g", "*.go", "zzgen/*"]
+
+
+def nomatch_spellings(items, rng):
+    return [rng.choice(NOMATCH) if it == "nomatch" else it for it in items]
+
+
 def anycase(v, rng):
     """The spellings are case-insensitive: half of the time use a random mix of upper and lower case."""
     if rng.random() < 0.5:
@@ -177,9 +185,9 @@ def concretise(sc, rng, force_mixed=False):
     elif a["scan"] == "false":
         argv.append(rng.choice(["--config.scan-tests=false", "-config.scan-tests=0", "--config.scan-tests=F"]))
     if e["paths"]["given"]:
-        env["GOGREEMENT_EXCLUDE_PATHS"] = list_string(e["paths"]["items"], rng)
+        env["GOGREEMENT_EXCLUDE_PATHS"] = list_string(nomatch_spellings(e["paths"]["items"], rng), rng)
     if a["paths"]["given"]:
-        argv.append("--config.exclude-paths=" + list_string(a["paths"]["items"], rng))
+        argv.append("--config.exclude-paths=" + list_string(nomatch_spellings(a["paths"]["items"], rng), rng))
     if e["checks"]["given"]:
         env["GOGREEMENT_EXCLUDE_CHECKS"] = list_string(e["checks"]["items"], rng, True)
     if a["checks"]["given"]:
